@@ -86,22 +86,46 @@ def one_case(mon, rng, sc, c):
         m._record_action_callback = rec
     steps = rng.randint(15, 60)
     trace = []
+    twin = None  # see Twin: the scene as it was before a call that was then rejected, fed the same later operations
     for step in range(steps):
         if rng.random() < 0.12:
             sc.move(rng)
+            if twin is not None:
+                twin.sc.move(rng, bar=sc.bar)
+        rstate = rng.getstate()
         try:
             op = sc.gen(rng)
         except Exception as e:  # generator looked at a state it cannot handle; not an observation
             mon.cls(f"gen-error/{type(e).__name__}")
+            twin = None
             continue
+        if twin is not None:
+            twin = twin.follow(mon, rstate, op, fz, trace)
         pre = Dr.project(fz.broker, fz.actions)
         pre_bal = balances(fz)
+        if twin is not None:
+            twin.reads()  # the twin is read whenever the real scene is (reading warms caches)
+        cand = None
+        if twin is None and not op.multi and rng.random() < 0.3:
+            cand = Twin.take(sc, op, len(fz.actions))
         del boundaries[:]
         res = Dr.call_op(op.fn)
         trace.append(f"{op.market}.{op.label}[{op.cls}]{'+' if res.ok else '-'}")
+        if twin is not None:
+            twin = twin.compare(mon, res, fz, sc, trace)
         if res.ok:
             mon.cls(f"accepted/{op.market}/{op.label}")
             continue
+        if cand is not None:
+            cand.site = res.site or "?"
+            twin = cand
+            mon.hit("twin-started")
+            # a wallet entry with balance 0 that the refused call created is no balance (the projection leaves zero balances
+            # out for the same reason): the twin gets the same empty entry, so that only amounts and records can differ
+            for tok, a in fz.broker.assets.items():
+                if a.balance == 0 and tok not in twin.sc.fz.broker.assets:
+                    twin.sc.fz.broker.set_balance(tok, 0)
+            twin.reads()  # the real scene has just been read again (projection and balances after the refusal)
         post = Dr.project(fz.broker, fz.actions)
         mon.ev()
         site = res.site or "?"
@@ -133,6 +157,105 @@ def one_case(mon, rng, sc, c):
             )
         mon.sample({"scene": sc.info, "op": f"{op.market}.{op.label}", "arg_class": op.cls, "rejected_at": site,
                     "error": f"{type(res.exc).__name__}: {str(res.exc)[:80]}"}, cls=f"{op.market}/{op.label}/{site}")
+
+
+def _num_repr(text):
+    """repr of a balance object with every Decimal written in normalised form (0E-18 is 0)"""
+    import re
+    from decimal import Decimal as _D
+
+    def f(mo):
+        try:
+            d = _D(mo.group(1))
+            return "D(" + (str(d.normalize()) if d.is_finite() and d != 0 else ("0" if d == 0 else str(d))) + ")"
+        except Exception:
+            return mo.group(0)
+
+    return re.sub(r"(?:Unit)?Decimal\('([^']*)'\)", f, str(text))
+
+
+def _canon_actions(actions):
+    return [(type(a).__name__, sorted((k, str(v)) for k, v in vars(a).items())) for a in actions]
+
+
+class Twin:
+    """"A rejected call changes nothing" also means that nothing it left behind shows later.  Before some calls the whole
+    scene (broker, markets with their data, generators) is deep-copied; if the call is then rejected, the copy - which never
+    saw that call - is fed the next few operations (generated from the same random state against its own objects) next to the
+    real scene, and after each of them both must agree: same verdict, same state projection, same reported balances, same
+    action records since the copy was taken.  State outside the projection (buffers, flags, caches) that a rejected call
+    leaves behind has no other way to show."""
+
+    FOLLOW = 3
+
+    def __init__(self, sc, op, n_actions):
+        self.sc, self.rejected, self.n0, self.left, self.site = sc, f"{op.market}.{op.label}[{op.cls}]", n_actions, self.FOLLOW, "?"
+        self.op_market, self.op_label = op.market, op.label
+        self.res_t = None
+
+    @classmethod
+    def take(cls, sc, op, n_actions):
+        import copy
+
+        try:
+            tw = copy.deepcopy(sc)
+        except Exception:  # a scene that cannot be copied gives no twin (not an observation)
+            return None
+        tfz = tw.fz
+        tfz.broker._record_action_callback = tfz._record
+        for m in tfz.markets:
+            m._record_action_callback = tfz._record
+        return cls(tw, op, n_actions)
+
+    def reads(self):
+        Dr.project(self.sc.fz.broker, self.sc.fz.actions)
+        balances(self.sc.fz)
+
+    def follow(self, mon, rstate, op, fz, trace):
+        """the operation the real scene is about to get, generated for the twin from the same random state"""
+        import random
+
+        trng = random.Random()
+        trng.setstate(rstate)
+        try:
+            op_t = self.sc.gen(trng)
+        except Exception:
+            return None
+        if (op_t.market, op_t.label, op_t.cls) != (op.market, op.label, op.cls):
+            # the generators already look at different states: report it as what it is
+            self.res_t = ("generator-diverged", f"real {op.market}.{op.label}[{op.cls}] vs twin {op_t.market}.{op_t.label}[{op_t.cls}]")
+            return self
+        self.res_t = Dr.call_op(op_t.fn)
+        return self
+
+    def compare(self, mon, res, fz, sc, trace):
+        tfz = self.sc.fz
+        mon.ev()
+        mon.hit("twin-comparisons")
+        diffs = []
+        if isinstance(self.res_t, tuple):
+            diffs.append(self.res_t[1])
+        else:
+            if res.ok != self.res_t.ok:
+                diffs.append(f"verdict: real {'accepted' if res.ok else repr(res.exc)[:80]}, twin {'accepted' if self.res_t.ok else repr(self.res_t.exc)[:80]}")
+            diffs += Dr.diff_proj(Dr.project(tfz.broker), Dr.project(fz.broker))[:4]
+            a_t, a_r = _canon_actions(tfz.actions[self.n0:]), _canon_actions(fz.actions[self.n0:])
+            if a_t != a_r:
+                diffs.append(f"action records since the rejected call: twin {[x[0] for x in a_t]} real {[x[0] for x in a_r]}")
+            b_t, b_r = balances(tfz), balances(fz)
+            for k in b_r:
+                if _num_repr(b_t.get(k)) != _num_repr(b_r[k]):
+                    i = next((j for j, (x, y) in enumerate(zip(str(b_t.get(k)), str(b_r[k]))) if x != y), 0)
+                    diffs.append(f"reported balance of {k}: twin ...{str(b_t.get(k))[max(0, i - 60):i + 60]} real ...{str(b_r[k])[max(0, i - 60):i + 60]}")
+        if diffs:
+            mon.violation(
+                self.op_market, self.op_label, "rejected-call-shows-later", self.site,
+                f"{self.rejected} was rejected ({self.site}); the scene that never saw that call and the real one disagree after "
+                f"{trace[-1]}: {diffs[:4]} (scene {sc.info}, trace tail {trace[-5:]})", {"scene": sc.info, "trace": trace[-12:]},
+            )
+            return None
+        self.left -= 1
+        return self if self.left > 0 else None
 
 
 def balances(fz):
